@@ -50,8 +50,8 @@ claimed.update({
  "C11": ("exploration", "Histories that end with chosen non-current primary files holding no live data (or below a low-use threshold), then bounded rounds of (GC cycle, Flush): every targeted file must be zero-length or unlinked, the oldest unlinked with the header advanced, unreferenced index files emptied, GC errors are violations, StorageSize never grows in non-relocating cycles, primary growth bounded by relocated bytes, and repeated rounds reach and keep a fixed point. A background class leaves the reopened store idle with its own collectors and flusher: the same files must be released within a bounded number of GC intervals of simulated time and the files must then stop changing.", "4/C11",
          "Bounds are generous finite constants; visited set starts empty.",
          "deterministic simulation: bounded-progress, conservation and fixed-point checks over GC rounds"),
- "C13": ("exploration", "Freelist ledger: expected multiset of superseded locations (from Index.Get before/after every call and GC cycle) must equal freelist file + every batch captured at the hand-over rename, nothing twice, no current location recorded; sequential histories with relocation, interrupted cycles and clean restarts, and concurrent disjoint-key writers + flusher + GC hand-over hammering; with a relocating GC under the writers the structural form is checked (nothing recorded twice, no current location recorded, every intact unreferenced primary record is recorded).", "4/C13",
-         "Clean restarts only; concurrent class uses disjoint key sets; the exact multiset comparison needs relocation disabled (60% of concurrent cases), the other 40% use the structural check.",
+ "C13": ("exploration", "Freelist ledger: expected multiset of superseded locations (from Index.Get before/after every call and GC cycle) must equal freelist file + every batch captured at the hand-over rename, nothing twice, no current location recorded; sequential histories with relocation, interrupted cycles and clean restarts, and concurrent disjoint-key writers + flusher + GC hand-over hammering; with a relocating GC under the writers the structural form is checked (nothing recorded twice, no current location recorded, every intact unreferenced primary record is recorded). A crash class crashes histories with frequent primary GC cycles at every file operation on the freelist file and its hand-over file: entries durable at the crash must be applied by the GC cycles after recovery.", "4/C13",
+         "Entries that were only pooled (not yet written) at a crash are outside the crash class: the store has no journal. Concurrent class uses disjoint key sets; the exact multiset comparison needs relocation disabled (60% of concurrent cases), the other 40% use the structural check.",
          "deterministic simulation: conservation ledger over freelist file and captured hand-over batches"),
  "C14": ("exploration", "1-3 tasks drive a bare FileCache over the simulated disk with Open/Close/use/Remove/Clear/SetCacheSize(0..3)/Len over 1-3 names; invariants from the cache's white-box state and the disk's handle ledger: lent handles open and readable, open handles cached or lent, refs equal references lent out, no double close, no use after close, descriptors <= capacity + lent.", "4/C14",
          "Seeded sampling of sequences (<= 26 ops), not exhaustive.",
